@@ -1908,7 +1908,28 @@ static Chunk *output_comment_c(Chunk *first)
 
       bool replace_comment = (  options::cmt_trailing_single_line_c_to_cpp()
                              && first->IsLastChunkOnLine()
-                             && first->Str().at(2) != '*');
+                             && first->Len() >= 4        // an unterminated comment at the end of the file is shorter
+                             && first->Str().at(2) != '*'
+                             && first->Str().at(first->Len() - 2) == '*'
+                             && first->Str().at(first->Len() - 1) == '/');
+
+      if (replace_comment)
+      {
+         // a C++ comment that ends in a backslash continues on the next line
+         size_t idx = first->Len() - 2;
+
+         while (  idx > 2
+               && (  first->Str().at(idx - 1) == ' '
+                  || first->Str().at(idx - 1) == '\t'))
+         {
+            idx--;
+         }
+
+         if (first->Str().at(idx - 1) == '\\')
+         {
+            replace_comment = false;
+         }
+      }
 
       if (  replace_comment
          && first->TestFlags(PCF_IN_PREPROC))
